@@ -772,6 +772,10 @@ class LLUDPMessageLogEntry(AbstractMessageLogEntry):
                             deserialized = block.deserialize_var(var_name)
                         except KeyError:
                             continue
+                        except Exception:
+                            # There's a subfield serializer but it couldn't decode this payload.
+                            # Nothing to compare against, so this field can't match.
+                            continue
                         # Discard the tag if this is a tagged union, we only want the value
                         if isinstance(deserialized, TaggedUnion):
                             deserialized = deserialized.value
